@@ -67,7 +67,8 @@ namespace PqV.Spec
 
 /-- self-describing decoder (the compact protocol carries wire types); `fuel` bounds nesting+length -/
 def takeN (n : Nat) (bs : List Nat) : Option (List Nat × List Nat) :=
-  if bs.length < n then none else some (bs.take n, bs.drop n)
+  -- cost proportional to `n`, not to the length of `bs` (a footer holds thousands of binaries)
+  if (bs.take n).length < n then none else some (bs.take n, bs.drop n)
 
 mutual
   def decVal : Nat → Nat → List Nat → Option (TVal × List Nat)
